@@ -201,7 +201,70 @@ EvSplitAb(e) ==
                     /\ e.A_vars = Tail(e.vars) /\ e.A_index = e.index
                     /\ e.linalg_A = e.A /\ e.linalg_b = e.b /\ e.linalg_A_vars = Tail(e.vars))
 
-PolyOpNames == {"reduce_oneshot", "reduce_ops", "tighten", "classify", "construct", "partition", "lists", "split_Ab"}
+(* ---- histories of calls on ONE polyhedron object (machine PuanPolyAPI) -------------------------------------------- *)
+\* environment actions of the machine: the caller edits the live array in place / re-declares the last column
+EditP(p) == [p EXCEPT !.rows[1].a[Len(p.cols)] = @ + 1]
+WidenP(p) == [p EXCEPT !.cols[Len(p.cols)].hi = @ + 1]
+SameP(p, q) == p.rows = q.rows /\ p.cols = q.cols /\ p.index = q.index
+PStepCalls == {"reduce_cols", "reduce_rows", "reduce_both"}
+PEnvCalls == {"edit", "widen"}
+\* one recorded step, judged against what the object denotes at that point (cur)
+PStepV(s, cur) ==
+  LET rows == cur.rows  cols == cur.cols
+      cv == [ j \in DOMAIN s.fixed |-> [fixed |-> s.fixed[j], val |-> s.val[j]] ]
+      rf == FlagsB(s.rflags)
+      forced == Len(s.fixed) = Len(cols) /\ \A j \in DOMAIN cols : cv[j].fixed => \A x \in PSol(rows, cols) : x[j] = cv[j].val
+      implied == Len(s.rflags) = Len(rows) /\ \A i \in DOMAIN rows : rf[i] => \A x \in PBox(cols) : RowOk(rows[i], x)
+      impliedRel == Len(s.rflags) = Len(rows) /\ Len(s.fixed) = Len(cols) /\ \A i \in DOMAIN rows : rf[i] => \A x \in PBox(cols) :
+                        (\A j \in DOMAIN cols : cv[j].fixed => x[j] = cv[j].val) => RowOk(rows[i], x)
+  IN IF rows = <<>> \/ cols = <<>> THEN {}            \* nothing is claimed about a polyhedron without rows or without columns (O14)
+     ELSE IF s.exc # "" THEN {"ph_no_exception"} ELSE
+     (IF s.call \in PEnvCalls THEN {} ELSE PFail("ph_receiver_unchanged", SameP(s.after, cur)))
+     \cup (CASE s.call = "A" -> PFail("ph_split", s.res = [ i \in DOMAIN rows |-> rows[i].a ])
+            [] s.call = "b" -> PFail("ph_split", s.res = [ i \in DOMAIN rows |-> rows[i].b ])
+            [] s.call = "to_linalg" -> PFail("ph_split", s.res.A = [ i \in DOMAIN rows |-> rows[i].a ] /\ s.res.b = [ i \in DOMAIN rows |-> rows[i].b ])
+            [] s.call = "column_bounds" -> PFail("ph_colb", s.res = << [ j \in DOMAIN cols |-> cols[j].lo ], [ j \in DOMAIN cols |-> cols[j].hi ] >>)
+            [] s.call = "row_bounds" -> PFail("ph_rowb", Len(s.res) = Len(rows) /\ \A i \in DOMAIN rows :
+                                               LET v == RowRange(rows[i], cols) IN s.res[i] = << SetMin(v), SetMax(v) >>)
+            [] s.call = "ncomb" -> PFail("ph_ncomb", Len(s.res) = Len(rows) /\ \A i \in DOMAIN rows : s.res[i] = NComb(rows[i], cols))
+            [] s.call = "tighten" -> PFail("ph_tighten", /\ Len(s.res) = 2 /\ Len(s.res[1]) = Len(cols) /\ Len(s.res[2]) = Len(cols)
+                                                        /\ (\A x \in PSol(rows, cols) : \A j \in DOMAIN cols : s.res[1][j] <= x[j] /\ x[j] <= s.res[2][j])
+                                                        /\ (\A j \in DOMAIN cols : s.res[1][j] >= cols[j].lo /\ s.res[2][j] <= cols[j].hi)
+                                                        /\ ((\E j \in DOMAIN cols : s.res[1][j] > s.res[2][j]) => PSol(rows, cols) = {}))
+            [] s.call = "red_rows" -> PFail("ph_red_rows", implied)
+            [] s.call = "red_cols" -> PFail("ph_red_cols", forced)
+            [] s.call = "rr_and_c" -> PFail("ph_red_cols", forced) \cup PFail("ph_red_rows", impliedRel)
+            [] s.call = "sat" -> PFail("ph_sat", s.res = SatN(rows, s.points, s.ndim))
+            [] s.call = "sep" -> PFail("ph_sep", s.res = SepN(rows, s.points, s.ndim))
+            [] s.call = "rowsep" -> PFail("ph_rowsep", s.res = RowSepN(rows, s.points, s.ndim))
+            [] s.call = "idx" -> PFail("ph_idx", /\ { s.res.b[i] : i \in DOMAIN s.res.b } = BoolIdx(s.vars) /\ Len(s.res.b) = Cardinality(BoolIdx(s.vars))
+                                                 /\ { s.res.i[i] : i \in DOMAIN s.res.i } = IntIdx(s.vars) /\ Len(s.res.i) = Cardinality(IntIdx(s.vars))
+                                                 /\ Tail(s.vars) = cols)
+            [] s.call \in {"copy", "rewrap"} -> PFail("ph_same_polyhedron", SameP(s.res, cur))
+            [] s.call \in {"reduce_cols", "reduce_cols_q"} -> PFail("ph_red_cols", forced)
+                                         \cup PFail("ph_reduce_cols_fn", Len(s.fixed) = Len(cols) /\ LET n == ReduceCols(rows, cols, cv) IN
+                                                          s.new.rows = n.rows /\ s.new.cols = n.cols /\ s.new.index = cur.index)
+            [] s.call \in {"reduce_rows", "reduce_rows_q"} -> PFail("ph_red_rows", implied)
+                                         \cup PFail("ph_reduce_rows_fn", Len(s.rflags) = Len(rows) /\ s.new.rows = ReduceRows(rows, rf) /\ s.new.cols = cols
+                                                          /\ s.new.index = ReduceRows(cur.index, rf))
+            [] s.call \in {"reduce_both", "reduce_both_q"} -> PFail("ph_red_cols", forced) \cup PFail("ph_red_rows", impliedRel)
+                                         \cup PFail("ph_projection", Len(s.fixed) = Len(cols) /\ WellFormed(s.new.rows, s.new.cols)
+                                                          /\ ProjOK(rows, cols, cv, s.new.rows, s.new.cols))
+                                         \cup PFail("ph_labels", Len(s.rflags) = Len(rows) /\ s.new.index = ReduceRows(cur.index, rf))
+            [] s.call = "edit" -> PFail("ph_edit_seen", SameP(s.after, EditP(cur)))
+            [] s.call = "widen" -> PFail("ph_edit_seen", SameP(s.after, WidenP(cur)))
+            [] OTHER -> {})
+\* what the object denotes after the step: the caller goes on with the RECORDED result of a reduction call (judged above), with the
+\* declared edit, or with the same object
+PNextCur(s, cur) == IF s.exc # "" THEN cur
+                    ELSE IF s.call \in PStepCalls THEN s.new
+                    ELSE IF s.call = "edit" THEN EditP(cur) ELSE IF s.call = "widen" THEN WidenP(cur) ELSE cur
+RECURSIVE PolyHistV(_, _, _)
+PolyHistV(steps, k, cur) == IF k > Len(steps) THEN {}
+                            ELSE PStepV(steps[k], cur) \cup PolyHistV(steps, k + 1, PNextCur(steps[k], cur))
+EvPolyHistory(e) == IF ~WellFormed(e.init.rows, e.init.cols) THEN {"outside_domain"} ELSE PolyHistV(e.steps, 1, e.init)
+
+PolyOpNames == {"reduce_oneshot", "reduce_ops", "tighten", "classify", "construct", "partition", "lists", "split_Ab", "poly_history"}
 PolyVerdict(e) ==
   CASE e.op = "reduce_oneshot" -> EvReduceOneShot(e)
     [] e.op = "reduce_ops"     -> EvReduceOps(e)
@@ -211,5 +274,6 @@ PolyVerdict(e) ==
     [] e.op = "partition"      -> EvPartition(e)
     [] e.op = "lists"          -> EvLists(e)
     [] e.op = "split_Ab"       -> EvSplitAb(e)
+    [] e.op = "poly_history"   -> EvPolyHistory(e)
     [] OTHER                   -> {}
 =============================================================================
